@@ -176,7 +176,7 @@ def check_case(case, acc):
     acc.tag("nodes_created", len(world.nodes))
 
 
-VALUE = st.one_of(st.integers(-3, 3), st.sampled_from(["v", "", "w w"]))
+VALUE = st.one_of(st.integers(-3, 3), st.sampled_from(["v", "", "w w"]), st.none(), st.sampled_from([False, 0]))
 ATTRS = st.lists(st.tuples(st.sampled_from(NAMES), VALUE).map(list), max_size=2, unique_by=lambda kv: kv[0])
 IDX = st.integers(0, 40)
 
@@ -202,7 +202,7 @@ def _systematic_cases(index, count):
     for cls0 in ("Node", "AnyNode", "PropNode"):
         for chain in range(1, 4):
             for linkcls in ("SymlinkNode", "PlainLink"):
-                for ctor_kw in ([], [["foo", 1]], [["name", "renamed"], ["bar", "v"]]):
+                for ctor_kw in ([], [["foo", 1]], [["name", "renamed"], ["bar", "v"]], [["foo", None]]):
                     for write_at in range(0, chain + 1):
                         k += 1
                         if k % count != index:
